@@ -133,10 +133,22 @@ func (w *World) guard(f func() string) (res string) {
 	case r := <-done:
 		return r
 	case <-time.After(w.Timeout):
+	}
+	// the watchdog fired: on a loaded machine a slow call is not a hang; a call that is really stuck stays stuck, so it
+	// is given four more periods before it is declared one
+	select {
+	case r := <-done:
+		watchdogGrace++
+		return r
+	case <-time.After(4 * w.Timeout):
 		w.Hang = true
+		hangsSeen++
 		return "HANG"
 	}
 }
+
+var watchdogGrace int // calls that finished only within the grace period
+var hangsSeen int     // calls declared hung (a stuck goroutine may hold a package-wide lock: shrinkers stop when this grows)
 
 func errs(err error) string {
 	if err != nil {
